@@ -99,6 +99,9 @@ pub struct Case {
     pub plan: Plan,
     pub listener: Listener,
     pub fault: Fault,
+    /// delay (ms) injected while a task holds the listener connection (guarded point log.stream.locked)
+    #[serde(default)]
+    pub lock_delay_ms: u64,
 }
 
 pub fn plan(max_layer: usize, chatty: bool) -> impl Strategy<Value = Plan> {
@@ -158,8 +161,25 @@ pub fn strategy_c15() -> impl Strategy<Value = Case> {
             2 => (1usize..600).prop_map(Fault::CloseAfterBytes),
             1 => Just(Fault::CloseBeforeHandshake),
         ],
+        prop_oneof![7 => Just(0u64), 1 => 520u64..700],
     )
-        .prop_map(|(mut plan, listener, fault)| {
+        .prop_map(|(mut plan, listener, fault, lock_delay_ms)| {
+            if lock_delay_ms >= 500 {
+                // the connection is held longer than the flush interval by every flush: a small
+                // plan, everything streamed to a real listener that stays
+                plan.layers = vec![plan.layers[0].min(3)];
+                plan.ncmd = 1;
+                plan.bursts = 0;
+                plan.long_lines = 0;
+                plan.late_bursts = 0;
+                plan.fail = None;
+                return Case {
+                    plan,
+                    listener: Listener::RealTail(Filters { stdout: true, stderr: true, targets: vec![], commands: vec![] }),
+                    fault: Fault::None,
+                    lock_delay_ms,
+                };
+            }
             // a failing task cancels its siblings at a timing-dependent point, which would make
             // two executions of the same plan differ by themselves: keep failing tasks alone
             if plan.fail.is_some() {
@@ -171,7 +191,7 @@ pub fn strategy_c15() -> impl Strategy<Value = Case> {
                 (Listener::RealTail(_), Fault::CloseBeforeHandshake) => Fault::KilledBeforeRun,
                 (_, f) => f,
             };
-            Case { plan, listener, fault }
+            Case { plan, listener, fault, lock_delay_ms: 0 }
         })
 }
 
@@ -301,12 +321,17 @@ struct Outcome {
     logs: BTreeMap<String, String>,
 }
 
-fn run_and_collect(env: &mut Env, setup: &Setup, limit: Duration, hang_is_violation: bool) -> Result<(Outcome, bb::MrOut), CheckError> {
+fn run_and_collect(env: &mut Env, setup: &Setup, limit: Duration, hang_is_violation: bool, lock_delay_ms: u64) -> Result<(Outcome, bb::MrOut), CheckError> {
     let mut args: Vec<&str> = vec!["run", "-c"];
     for c in &setup.commands {
         args.push(c);
     }
-    let out = env.mr_env(&args, &[], limit);
+    let points: Vec<(&str, String)> = if lock_delay_ms > 0 {
+        vec![("MRV_POINTS", format!("log.stream.locked=delay:{}", lock_delay_ms))]
+    } else {
+        vec![]
+    };
+    let out = env.mr_env(&args, &points, limit);
     if out.timed_out {
         if hang_is_violation {
             return viol_obs(
@@ -398,7 +423,7 @@ pub fn check_c15(case: &Case, w: usize) -> CheckResult {
     let mut env = Env::new(w);
     let setup = install(&env, &case.plan, false);
     // reference: no listener
-    let (reference, ref_out) = run_and_collect(&mut env, &setup, Duration::from_secs(120), false)?;
+    let (reference, ref_out) = run_and_collect(&mut env, &setup, Duration::from_secs(120), false, 0)?;
     if reference.failed.is_none() {
         return inconclusive(format!("reference run produced no document: {}", ref_out.brief()));
     }
@@ -449,7 +474,7 @@ pub fn check_c15(case: &Case, w: usize) -> CheckResult {
     };
     // a run that finished in ref_wall without a listener gets 30 times that (at least 90 s) with one
     let limit = Duration::from_secs(90).max(ref_wall * 30);
-    let with_res = run_and_collect(&mut env, &setup, limit, true);
+    let with_res = run_and_collect(&mut env, &setup, limit, true, case.lock_delay_ms);
     if with_res.is_err() {
         env.kill_groups();
     }
@@ -505,6 +530,8 @@ pub fn check_c15(case: &Case, w: usize) -> CheckResult {
         .class_if(case.plan.fail.is_some(), "plan-with-failing-task")
         .class_if(case.plan.unterminated != 0, "unterminated-output")
         .class_if(case.plan.split_lines != 0, "split-lines")
+        .class_if(case.plan.late_bursts != 0, "late-bursts>64KiB")
+        .class_if(case.lock_delay_ms >= 500, "connection-held-longer-than-the-flush-interval")
         .inv(env.invocations))
 }
 
